@@ -261,16 +261,21 @@ def build(spec, mem_limit=None, mem_location=None):
     for li, l in enumerate(spec["links"]):
         in_index[li] = in_count[l["dst"]]
         in_count[l["dst"]] += 1
-    for li in link_order:
+    # links carrying "via": k start at the last adapter of link k's chain (a pass-through adapter that fans out);
+    # they are created after the plain links, in the given order
+    last_of = {}
+    ordered = [li for li in link_order if "via" not in spec["links"][li]] + [li for li in link_order if "via" in spec["links"][li]]
+    for li in ordered:
         l = spec["links"][li]
         out = comps[l["src"]].outputs[f"Out{l['out']}"]
         inp = comps[l["dst"]].inputs[f"In{in_index[li]}"]
-        cur = out
+        cur = last_of[l["via"]] if "via" in l else out
         ads = []
         for a in l["ads"]:
             obj = mk_adapter(a)
             cur = cur >> obj
             ads.append(obj)
+        last_of[li] = cur
         cur >> inp
         link_objs.append((li, out, ads, inp))
         adapters.extend(ads)
@@ -395,7 +400,8 @@ def model_request(spec, fuel=4000):
         src_spec = spec["comps"][l["src"]]
         init = src_spec["start"] if src_spec["kind"] == "time" else t0
         ads = []
-        for a in l["ads"]:
+        full = (spec["links"][l["via"]]["ads"] if "via" in l else []) + l["ads"]  # shared pass-through prefix first
+        for a in full:
             ads.append(model_ad(a, ndp, init))
             if a[0] == "dpull":
                 ndp += 1
